@@ -289,6 +289,10 @@ func main() {
 			}
 			return ne >= 1, fmt.Sprintf("%d errors for a stream that ends before its root element", ne)
 		}},
+		{"C14-hash-comment", func() (bool, string) {
+			s := gff.Parse([]byte("##gff-version 3\n##sequence-region s 1 1\n#c\n###\n##FASTA\n>s\nA\n"))
+			return s.Sequence == "A" && len(s.Features) == 0, fmt.Sprintf("sequence %q, %d features", s.Sequence, len(s.Features))
+		}},
 	}
 	for _, p := range probes {
 		if only == "" || only == p.name {
